@@ -352,6 +352,22 @@ void run_fmt(Ctx &c) {
 	frg::format(frg::fmt(frg::string_view(f, fmt.size()), a.i, a.u, a.l, a.ull, a.ch, a.cs, sv), sink);
 	c.check_san("C19");
 	VCHECK(c, "C19", sink.out == expect, "fmt(\"%s\") renders \"%s\", the documented grammar gives \"%s\"", fmt.c_str(), sink.out.c_str(), expect.c_str());
+	// More than ten arguments: two-digit positions select the right argument, positions past the end are echoed
+	if(t.pick(4) == 0) {
+		unsigned nsp = 1 + t.pick(4); std::string f12, e12;
+		int vals[13]; for(int k = 0; k < 13; k++) vals[k] = 100 + k * 11 + (int)(a.i % 7);
+		for(unsigned sidx = 0; sidx < nsp; sidx++) {
+			unsigned pos = t.pick(16); bool lead = t.pick(4) == 0; bool hex = t.pick(3) == 0;
+			std::string spec = "{" + std::string(lead ? "0" : "") + std::to_string(pos) + (hex ? ":x" : "") + "}";
+			f12 += "<" + spec + ">";
+			if(pos < 13) { char b[32]; snprintf(b, sizeof b, hex ? "%x" : "%d", vals[pos]); e12 += "<" + std::string(b) + ">"; } else e12 += "<" + spec + ">";
+		}
+		char *ff = (char *)malloc(f12.size()); c.arena.push_back({ff, nullptr}); memcpy(ff, f12.data(), f12.size());
+		StrSink s12;
+		frg::format(frg::fmt(frg::string_view(ff, f12.size()), vals[0], vals[1], vals[2], vals[3], vals[4], vals[5], vals[6], vals[7], vals[8], vals[9], vals[10], vals[11], vals[12]), s12);
+		VCHECK(c, "C19", s12.out == e12, "fmt(\"%s\") with 13 arguments renders \"%s\", the documented grammar gives \"%s\"", f12.c_str(), s12.out.c_str(), e12.c_str());
+		c.tag("fmt-13-arguments");
+	}
 	// A message object that is built from temporaries in one place and rendered later (stored, returned from a function):
 	// it has to hold its rvalue arguments by value.
 	{
